@@ -233,21 +233,50 @@ theorem closed_client_ignores_read_errors (c : Conn) (w : Bool) (hl : c.legacy =
   simp only [Bool.false_eq_true, ↓reduceIte, hl', hs', Bool.not_false, decide_true, Bool.and_self,
     Bool.true_or]
 
-/-- D19. The server's own close wins over whatever the socket does afterwards as well: once
-    Connection.Close has been processed (state ServerClosing) a readable event never yields an
-    error, whatever arrives behind it (end of stream, reset, malformed bytes, stray frames) — the
-    loop goes on to write CloseOk and ends with the server's reason. -/
+/- Statement before the tolerance was narrowed to socket errors:
+
 theorem server_closing_ignores_read_errors (c : Conn) (w : Bool) (hl : c.legacy = false)
     (hs : c.st.isServerClosing = true) (hnw : w = false) :
-    (handleEvent c (.stream true w)).2.2 = none := by
-  subst hnw
+    (handleEvent c (.stream true w)).2.2 = none
+
+false now - the tolerance was narrowed to socket errors: an error raised while the server's Close
+itself is processed is reported (a notification that cannot be delivered: `frameUnexpected`,
+`eventLoopClientDropped`); what arrives on the socket behind the close - its end, a read error, bytes
+that do not parse - is forgiven. -/
+
+/-- D19. The server's own close wins over whatever the socket does afterwards as well: once
+    Connection.Close has been processed (state ServerClosing) the socket's end or a read error
+    (or bytes that do not parse) never becomes the loop's result - the loop goes on to write CloseOk
+    and ends with the server's reason. -/
+theorem server_closing_ignores_read_errors (c : Conn) (w : Bool) (hl : c.legacy = false)
+    (hs : c.st.isServerClosing = true) (hnw : w = false) :
+    (handleEvent c (.stream true w)).2.2 ≠ some .unexpectedSocketClose ∧
+    (handleEvent c (.stream true w)).2.2 ≠ some .ioErrorReadingSocket ∧
+    (handleEvent c (.stream true w)).2.2 ≠ some .malformedFrame :=
+  handleEvent_stream_serverClosing hl hs true w
+
+/-- Equivalently: whenever the read itself ends with one of the two socket-level errors, the event
+    yields no error at all (the state `ServerClosing` is kept by reads, so the model's test of the
+    state *after* the read is a test of the state before it). -/
+theorem server_closing_forgives_socket_errors (c : Conn) (hl : c.legacy = false)
+    (hs : c.st.isServerClosing = true) (e : Err) (he : (readFromStream c).2 = some e)
+    (hsock : e = .unexpectedSocketClose ∨ e = .ioErrorReadingSocket ∨ e = .malformedFrame) :
+    (handleEvent c (.stream true false)).2.2 = none := by
   have hns : c.st ≠ .steady := by
     intro h; rw [h] at hs; exact absurd hs (by decide)
   have hr := (readFromStream_nonsteady hl (c := c) hns).1
   have hl' : (readFromStream c).1.legacy = false := hr.legacy.trans hl
   have hs' : (readFromStream c).1.st.isServerClosing = true := by rw [hr.st]; exact hs
   unfold handleEvent
-  simp only [Bool.false_eq_true, ↓reduceIte, hl', hs', Bool.not_false, Bool.or_true, Bool.and_self]
+  rcases hsock with h | h | h <;> subst h <;>
+    simp [hl', hs', he]
+
+/-- Forgiven as well: bytes behind the server's close that do not parse. -/
+example :
+    let c0 := (process (Conn.init 4 4) (.method 0 10 50 [.nat 320, .bytes []]) [] []).1
+    (handleEvent { c0 with reads := [.chunk [0, 0, 0, 0, 0, 0, 0, 0]] } (.stream true false)).2.2 =
+      none ∧
+    (handleEvent { c0 with reads := [.eof] } (.stream true false)).2.2 = none := by decide
 
 /-- The code before the repair reported the server's hang-up after CloseOk as an error. -/
 example :
